@@ -1,5 +1,6 @@
 // govc:pkg .
 // govc:bound CountingWindow(N) for N in 1..3 (1..5 with GOVC_BOUND=thorough) x 3 random feeds (12 thorough) of 30 rows (80 thorough) over 6 keys: two strings (one holding '|'), two integers (one of them also written as text of the same spelling), and the NULL key written both as an explicit nil and as a missing column; the feed is paced (at most 4 results outstanding) so that no overflow drop occurs
+// govc:also C04
 // Bounded stand-in (NOT a proof) for the path from the counting window to the delivered result, which crosses the
 // group aggregator (reflection based, outside the contracts): for every key the i-th delivered result aggregates exactly
 // that key's rows (i-1)*N+1 .. i*N in arrival order, one result per delivery, nothing for the trailing remainder, no row
